@@ -212,6 +212,21 @@ impl C15 {
 
     fn fams(&self, ctx: &Ctx) -> Families {
         let t = ctx.tier;
+        if ctx.flavour == crate::sup::Flavour::Miri {
+            // interpreted: ~10^4 times slower, so a small but complete-in-kind workload
+            return Families::new(vec![
+                ("int-lattice", self.lattice.len() as u64),
+                ("int-random", 200),
+                ("func-grid", (OFFSETS.len() * COUNTS.len()) as u64),
+                ("func-random", 100),
+                ("immediates", 3),
+                ("float", 300),
+                ("string", 100),
+                ("string-1MiB", 0),
+                ("array", 100),
+                ("pairs-row", 24),
+            ]);
+        }
         Families::new(vec![
             ("int-lattice", self.lattice.len() as u64),
             ("int-random", t.pick(20_000, 2_000_000)),
@@ -459,6 +474,15 @@ impl Check for C15 {
             }),
             assumptions: vec!["heap values are created through a GC obtained from the verif re-export; arrays are excluded from == (outside the property)".to_string()],
             inconclusive,
+        }
+    }
+
+    fn post(&mut self, ctx: &Ctx, merged: &mut Stats) {
+        // provenance of the int-to-pointer tagging, alignment, uninitialised reads, leaks: the whole check again under Miri
+        if ctx.flavour == crate::sup::Flavour::Rel && ctx.tier == crate::sup::Tier::Thorough {
+            let mctx = Ctx { seed: ctx.seed, tier: ctx.tier, flavour: crate::sup::Flavour::Miri };
+            let n = self.fams(&mctx).total();
+            crate::sup::run_miri("C15", ctx, 0, n, 16, merged);
         }
     }
 }
